@@ -15,6 +15,7 @@ import (
 	"path/filepath"
 	"strings"
 
+	"github.com/RoaringBitmap/roaring/v2"
 	segment "github.com/blevesearch/scorch_segment_api/v2"
 	zap "github.com/blevesearch/zapx/v16"
 )
@@ -139,6 +140,24 @@ func refHistories(r *RunCtx) {
 		for i := 0; i < nops; i++ {
 			readSweep(r, ps, cn, reads, want, soloEnv, fmt.Sprintf("after [%s]", strings.Join(hist, " ")))
 			checkLive(fmt.Sprintf("after [%s]", strings.Join(hist, " ")))
+			if c.Prob(1, 6, "ref.failedmerge") {
+				// a merge that reads the segment and is cancelled or cannot create its
+				// output: it must not keep (or drop) a reference of its own
+				mp := r.path("refmerge")
+				var merr error
+				if c.Bool("ref.failedmerge.kind") {
+					ch := make(chan struct{})
+					close(ch)
+					_, _, merr = plugin.Merge([]segment.Segment{ps}, []*roaring.Bitmap{nil}, mp, ch, nil)
+				} else {
+					_, _, merr = plugin.Merge([]segment.Segment{ps}, []*roaring.Bitmap{nil}, filepath.Join(mp+".missing", "x.zap"), nil, nil)
+				}
+				os.Remove(mp)
+				hist = append(hist, fmt.Sprintf("FailedMerge(err=%v)", merr != nil))
+				r.count("probe.ref.failed-merge-of-held-segment")
+				checkCounter(fmt.Sprintf("after [%s]", strings.Join(hist, " ")))
+				continue
+			}
 			if model > 1 && c.Bool("ref.dec") {
 				k := "DecRef"
 				if c.Bool("ref.close") {
